@@ -142,3 +142,167 @@ def identical(a: ast.FunctionDef, b: ast.FunctionDef, renames: dict | None = Non
     ra = _norm(ast.unparse(ast.Module(body=_strip_doc(a.body), type_ignores=[])), renames or {})
     rb = _norm(ast.unparse(ast.Module(body=_strip_doc(b.body), type_ignores=[])), renames or {})
     return ra == rb
+
+
+# ---------------------------------------------------------------------------------------------------------------
+# logic_diff: the parts of two sibling functions that are NOT target-language text must be the same expression.
+# Statements are aligned exactly as in skeleton(skip_literal=True); for each aligned pair the value / test / iterable /
+# call expressions are walked in parallel.  Free: string literals that carry target-language syntax (anything that is not
+# a plain word) and the literal text of f-strings.  Compared: every name, attribute, operator, number, keyword name,
+# argument count, word-like string constants (case-insensitively: 'true' / 'True'), f-string interpolations.
+
+_WORD = re.compile(r"^[\w:.\- ]*$")
+
+
+def _wordlike(s: str) -> bool:
+    return bool(_WORD.match(s))
+
+
+def _expr_mismatch(a: ast.AST, b: ast.AST, renames: dict):
+    """None when the two expressions agree; else a short (a_text, b_text) of the first disagreeing sub-expression."""
+    def txt(x):
+        try:
+            return _norm(ast.unparse(x), renames)[:90]
+        except Exception:
+            return type(x).__name__
+
+    def text_like(x):
+        return isinstance(x, (ast.JoinedStr,)) or (isinstance(x, ast.Constant) and isinstance(x.value, str)) or \
+            (isinstance(x, ast.BinOp) and isinstance(x.op, ast.Add) and (text_like(x.left) or text_like(x.right)))
+
+    def fvals(x):
+        out = []
+        for n in ast.walk(x):
+            if isinstance(n, ast.FormattedValue):
+                out.append(n.value)
+        return out
+
+    def rec(x, y):
+        if isinstance(x, ast.Constant) and isinstance(y, ast.Constant):
+            if isinstance(x.value, str) and isinstance(y.value, str):
+                if _wordlike(x.value) and _wordlike(y.value):
+                    return None if x.value.lower() == y.value.lower() else (txt(x), txt(y))
+                if _wordlike(x.value) != _wordlike(y.value) and (x.value.strip() and y.value.strip()):
+                    return None      # target-language text on one side, a word on the other: text
+                return None
+            return None if (type(x.value) is type(y.value) and x.value == y.value) else (txt(x), txt(y))
+        if text_like(x) and text_like(y):
+            # text: only the interpolated expressions are compared (in order)
+            fx, fy = fvals(x), fvals(y)
+            nx = [n for n in ast.walk(x) if not isinstance(n, (ast.Constant, ast.JoinedStr, ast.FormattedValue, ast.BinOp, ast.Add, ast.Load)) and not any(n in ast.walk(f) for f in fx)]
+            ny = [n for n in ast.walk(y) if not isinstance(n, (ast.Constant, ast.JoinedStr, ast.FormattedValue, ast.BinOp, ast.Add, ast.Load)) and not any(n in ast.walk(f) for f in fy)]
+            if len(fx) != len(fy):
+                return (txt(x), txt(y))
+            for p, q in zip(fx, fy):
+                r = rec(p, q)
+                if r:
+                    return r
+            # non-literal operands of a concatenation
+            ox = [s for s in _concat_operands(x) if not text_like(s)]
+            oy = [s for s in _concat_operands(y) if not text_like(s)]
+            if len(ox) != len(oy):
+                return (txt(x), txt(y))
+            for p, q in zip(ox, oy):
+                r = rec(p, q)
+                if r:
+                    return r
+            return None
+        if type(x) is not type(y):
+            return (txt(x), txt(y))
+        if isinstance(x, ast.Name):
+            return None if _norm(x.id, renames) == _norm(y.id, renames) else (txt(x), txt(y))
+        for f in x._fields:
+            if f in ("ctx", "lineno", "col_offset", "end_lineno", "end_col_offset", "type_comment"):
+                continue
+            u, v = getattr(x, f, None), getattr(y, f, None)
+            if isinstance(u, list) and isinstance(v, list):
+                if len(u) != len(v):
+                    return (txt(x), txt(y))
+                for p, q in zip(u, v):
+                    if isinstance(p, ast.AST) and isinstance(q, ast.AST):
+                        r = rec(p, q)
+                        if r:
+                            return r
+                    elif p != q:
+                        return (txt(x), txt(y))
+            elif isinstance(u, ast.AST) and isinstance(v, ast.AST):
+                r = rec(u, v)
+                if r:
+                    return r
+            elif isinstance(u, ast.AST) or isinstance(v, ast.AST):
+                return (txt(x), txt(y))
+            elif u != v:
+                if isinstance(u, str) and isinstance(v, str) and _norm(u, renames) == _norm(v, renames):
+                    continue
+                return (txt(x), txt(y))
+        return None
+    return rec(a, b)
+
+
+def _concat_operands(x):
+    if isinstance(x, ast.BinOp) and isinstance(x.op, ast.Add):
+        return _concat_operands(x.left) + _concat_operands(x.right)
+    return [x]
+
+
+def logic_diff(fa: ast.FunctionDef, fb: ast.FunctionDef, renames: dict | None = None) -> list[tuple[str, str]]:
+    """Aligned-statement comparison of everything that is not target-language text (see above).  Presupposes equal
+    skeletons (the caller reports a skeleton difference first); a misalignment is reported as a difference."""
+    renames = renames or {}
+    out: list[tuple[str, str]] = []
+
+    def parts(st):
+        """sub-expressions of one statement that carry logic"""
+        if isinstance(st, ast.If) or isinstance(st, ast.While):
+            return [st.test]
+        if isinstance(st, ast.For):
+            return [st.target, st.iter]
+        if isinstance(st, ast.Assign):
+            return [st.targets[0], st.value]
+        if isinstance(st, ast.AnnAssign):
+            return [st.target] + ([st.value] if st.value is not None else [])
+        if isinstance(st, ast.AugAssign):
+            return [st.target, st.value]
+        if isinstance(st, ast.Return):
+            return [st.value] if st.value is not None else []
+        if isinstance(st, ast.Expr):
+            return [st.value]
+        if isinstance(st, ast.Raise):
+            return []
+        return []
+
+    def literal_stmt(st):
+        if isinstance(st, ast.AugAssign) and _literal_only(st.value):
+            return True
+        if isinstance(st, ast.Expr) and isinstance(st.value, ast.Call) and st.value.args and all(_literal_only(a) for a in st.value.args) \
+                and all(_literal_only(k.value) for k in st.value.keywords):
+            return True
+        return False
+
+    def walk(ba, bb):
+        la = [s for s in _strip_doc(ba) if not literal_stmt(s)]
+        lb = [s for s in _strip_doc(bb) if not literal_stmt(s)]
+        if len(la) != len(lb):
+            out.append((f"{len(la)} statements", f"{len(lb)} statements"))
+            return
+        for x, y in zip(la, lb):
+            if type(x) is not type(y):
+                out.append((type(x).__name__, type(y).__name__))
+                continue
+            px, py = parts(x), parts(y)
+            for p, q in zip(px, py):
+                r = _expr_mismatch(p, q, renames)
+                if r:
+                    out.append(r)
+                    break
+            for f in ("body", "orelse", "finalbody"):
+                u, v = getattr(x, f, None), getattr(y, f, None)
+                if isinstance(u, list) and isinstance(v, list) and (u or v) and not isinstance(x, (ast.FunctionDef,)) :
+                    walk(u, v)
+            if isinstance(x, ast.FunctionDef):
+                walk(x.body, y.body)
+            if isinstance(x, ast.Try):
+                for hx, hy in zip(x.handlers, y.handlers):
+                    walk(hx.body, hy.body)
+    walk(fa.body, fb.body)
+    return out
